@@ -388,3 +388,325 @@ def gen_c10(rng, tier):
             o = (o[0], gen.gen_ctx(rng, len(o[1]), d))
         fixed.append(o)
     return {"base": base, "history": history, "queries": queries, "continuation": fixed}
+
+# ------------------------------------------------------------------ helpers for internal per-arm state
+def arm_state(mab, inv):
+    """learned state per arm (what warm_start copies / what training accumulates), canonical and comparable"""
+    imp = mab._imp
+    out = {}
+    name = type(imp).__name__
+    for a in mab.arms:
+        k = inv(a)
+        if name in ("_EpsilonGreedy", "_Popularity"):
+            out[k] = ("g", mwh.canon_val(imp.arm_to_sum[a]), int(imp.arm_to_count[a]), mwh.canon_val(imp.arm_to_expectation[a]))
+        elif name == "_UCB1":
+            out[k] = ("u", mwh.canon_val(imp.arm_to_sum[a]), int(imp.arm_to_count[a]), mwh.canon_val(imp.arm_to_mean[a]), mwh.canon_val(imp.arm_to_expectation[a]))
+        elif name == "_Softmax":
+            out[k] = ("s", mwh.canon_val(imp.arm_to_sum[a]), int(imp.arm_to_count[a]), mwh.canon_val(imp.arm_to_mean[a]))
+        elif name == "_ThompsonSampling":
+            out[k] = ("t", mwh.canon_val(imp.arm_to_success_count[a]), mwh.canon_val(imp.arm_to_fail_count[a]))
+        elif name == "_Linear":
+            m = imp.arm_to_model[a]
+            out[k] = ("l", None if m.beta is None else tuple(float(x) for x in np.ravel(m.beta)),
+                      None if m.A is None else tuple(float(x) for x in np.ravel(m.A)),
+                      None if m.Xty is None else tuple(float(x) for x in np.ravel(m.Xty)))
+        else:
+            out[k] = ("?",)
+    return out
+
+def status_of(mab, inv):
+    imp = mab._imp
+    return {inv(a): (bool(s["is_trained"]), bool(s["is_warm"]), None if s["warm_started_by"] is None else inv(s["warm_started_by"]))
+            for a, s in imp.arm_to_status.items()}
+
+def cosine_dist(u, v):
+    from scipy.spatial.distance import cdist
+    d = float(cdist(np.asarray([u]), np.asarray([v]), metric="cosine")[0][0])
+    return 999999.0 if d != d else d
+
+# ------------------------------------------------------------------ C13
+def gen_c13(rng, tier):
+    if rng.random() < 0.7:
+        base = gen.gen_cf_case(rng, kinds=["greedy", "ucb", "softmax", "thompson", "popularity"], max_ops=6, warm=True, queries=False,
+                               label=rng.choice(["int", "int", "str", "float", "negint"]))
+    else:
+        base = gen.gen_ctx_case(rng, nps=["none"], lps=gen.LIN_KINDS, max_ops=5, warm=True, queries=False,
+                                label=rng.choice(["int", "int", "str", "float"]))
+    return {"base": base, "seed2": rng.randint(0, 10**9)}
+
+def run_c13(t):
+    base = t["base"]
+    rng = random.Random(t["seed2"])
+    mab, label, inv, outs = drive(base)
+    if not mab._is_initial_fit or len(mab.arms) < 2:
+        return True, {"skipped": "not trained"}
+    arms = [inv(a) for a in mab.arms]
+    keys = list(arms)
+    if rng.random() < 0.5:
+        rng.shuffle(keys)
+    feats = gen.gen_features(rng, keys)
+    if rng.random() < 0.4:      # force exact distance ties between trained arms (one-hot categories)
+        dim = rng.randint(2, 3)
+        feats = [[1.0 if j == (i % dim) else 0.0 for j in range(dim)] for i in range(len(keys))]
+    q = rng.choice([0.0, 0.25, 0.5, 0.75, 1.0, rng.random()])
+    fd = {label(a): list(f) for a, f in zip(keys, feats)}
+    before = arm_state(mab, inv); st_before = status_of(mab, inv)
+    twin_lo = copy.deepcopy(mab); twin_hi = copy.deepcopy(mab)
+    try:
+        mab.warm_start(fd, float(q))
+    except Exception as e:
+        # rejected (e.g. no finite pairwise distance): nothing may have changed
+        if arm_state(mab, inv) != before or status_of(mab, inv) != st_before:
+            return False, {"why": "warm_start raised %r but changed the bandit" % e}
+        return True, {"skipped": "warm_start rejected"}
+    after = arm_state(mab, inv); st_after = status_of(mab, inv)
+    fmap = dict(zip(keys, feats))
+    trained = [a for a in arms if st_before[a][0]]
+    # threshold, recomputed independently from the documented rule
+    closest = []
+    for u in keys:
+        ds = [999999.0 if u == v else cosine_dist(fmap[u], fmap[v]) for v in keys]
+        if min(ds) != 999999.0:
+            closest.append(min(ds))
+    thr = float(np.quantile(closest, q)) if closest else None
+    for a in arms:
+        was_cold = (not st_before[a][0]) and (not st_before[a][1])
+        if not was_cold:
+            if after[a] != before[a] or st_after[a] != st_before[a]:
+                return False, {"why": "warm_start modified arm %r which was trained or already warm" % a,
+                               "before": str(before[a]), "after": str(after[a]), "status_before": st_before[a], "status_after": st_after[a]}
+            continue
+        # expected donor: the closest trained arm (first in arm order among ties), if within the threshold
+        exp_w = None
+        if trained and thr is not None:
+            dists = [(cosine_dist(fmap[a], fmap[w]), w) for w in trained]
+            best = min(d for d, _ in dists)
+            w0 = next(w for d, w in dists if d == best)
+            if best <= thr:
+                exp_w = w0
+        if exp_w is None:
+            if after[a] != before[a] or st_after[a] != st_before[a]:
+                return False, {"why": "cold arm %r was changed although no trained arm lies within the threshold" % a,
+                               "status_after": st_after[a], "threshold": thr}
+        else:
+            if st_after[a] != (False, True, exp_w):
+                return False, {"why": "cold arm %r: expected to be warm-started by its closest trained arm %r, status is %s" % (a, exp_w, st_after[a]),
+                               "threshold": thr, "features": {str(k): v for k, v in fmap.items()}, "quantile": q}
+            same = after[a] == before[exp_w] if after[a][0] != "s" else after[a][:4] == before[exp_w][:4]
+            if not same:
+                return False, {"why": "cold arm %r did not receive an exact copy of the state of arm %r" % (a, exp_w),
+                               "copy": str(after[a])[:300], "donor": str(before[exp_w])[:300]}
+    cold_now = [inv(x) for x in mab.cold_arms]
+    if cold_now != [a for a in arms if not st_after[a][0] and not st_after[a][1]]:
+        return False, {"why": "cold_arms is not the list of arms that are neither trained nor warm", "cold_arms": cold_now}
+    # idempotence
+    snap = (arm_state(mab, inv), status_of(mab, inv))
+    mab.warm_start(fd, float(q))
+    if (arm_state(mab, inv), status_of(mab, inv)) != snap:
+        return False, {"why": "repeating warm_start changed the bandit", "quantile": q}
+    # monotone in the quantile
+    q2 = rng.choice([x for x in [0.0, 0.25, 0.5, 0.75, 1.0] if x != q])
+    lo, hi = min(q, q2), max(q, q2)
+    try:
+        twin_lo.warm_start(fd, float(lo)); twin_hi.warm_start(fd, float(hi))
+        wl = {a for a, s in status_of(twin_lo, inv).items() if s[1]}
+        wh = {a for a, s in status_of(twin_hi, inv).items() if s[1]}
+        if not wl <= wh:
+            return False, {"why": "warm set at quantile %s is not contained in the warm set at %s" % (lo, hi), "lo": sorted(wl), "hi": sorted(wh)}
+    except Exception:
+        pass
+    return True, {}
+
+# ------------------------------------------------------------------ C14
+def apply_binz(code, arm, r):
+    k = code[0]
+    if k == "thr":
+        tbl = dict(code[1]); return 1.0 if r >= tbl.get(arm, code[2]) else 0.0
+    if k == "flip":
+        return 1.0 if r == 0 else 0.0
+    if k == "gt":
+        return 1.0 if r > code[1] else 0.0
+    if k == "const":
+        return float(code[1])
+    raise ValueError(code)
+
+def gen_c14(rng, tier):
+    npk = rng.choice(["none", "none", "radius", "knearest", "lsh", "clusters", "tree"])
+    if npk == "none":
+        base = gen.gen_cf_case(rng, kinds=["thompson"], max_ops=8, styles=["dyadic", "smallint"], warm=False)
+    else:
+        base = gen.gen_ctx_case(rng, nps=[npk], lps=["thompson"], max_ops=7, reward_styles=["dyadic", "smallint"])
+    arms_all = list(base["arms"]) + [o[1] for o in base["ops"] if o[0] == "add"]
+    bz = gen.gen_binz(rng, arms_all)
+    if bz[0] == "const":
+        bz = ("gt", 0.0)
+    base["lp"] = ("thompson", bz)
+    style = rng.choice(["dyadic", "smallint", "binary"])
+    if rng.random() < 0.25:
+        # no binarizer at construction; add_arm may install one later (rewards must then be binary throughout)
+        base["lp"] = ("thompson", None); style = "binary"
+    draw = gen.reward_stream(rng, style)
+    ops = []
+    for o in base["ops"]:
+        if o[0] in ("fit", "pfit"):
+            o = (o[0], o[1], [draw() for _ in o[1]], o[3])
+        elif o[0] == "add" and npk != "clusters" and rng.random() < 0.5:
+            nb = gen.gen_binz(rng, arms_all)
+            if nb[0] == "const":
+                nb = ("flip",)
+            o = ("add", o[1], nb)
+        elif o[0] == "add":
+            o = ("add", o[1], None)
+        ops.append(o)
+    base["ops"] = ops
+    return {"base": base}
+
+def run_c14(t):
+    base = t["base"]
+    # twin without binarizer, fed the rewards converted by the binarizer in force when they are passed in
+    conv = dict(base); conv["lp"] = ("thompson", None)
+    cur = base["lp"][1]
+    ops2 = []
+    for o in base["ops"]:
+        if o[0] in ("fit", "pfit"):
+            ops2.append((o[0], o[1], [r if cur is None else apply_binz(cur, d, r) for d, r in zip(o[1], o[2])], o[3]))
+        elif o[0] == "add":
+            if o[2] is not None:
+                cur = o[2]
+            ops2.append(("add", o[1], None))
+        else:
+            ops2.append(o)
+    conv["ops"] = ops2
+    _, _, _, o1 = drive(base)
+    _, _, _, o2 = drive(conv)
+    for i, (a, b, op) in enumerate(zip(o1, o2, base["ops"])):
+        if not outs_equal(a, b, "exact"):
+            return False, {"why": "call %d (%s) differs between the bandit with a binarizer and the bandit fed pre-converted rewards" % (i, op[0]),
+                           "with_binarizer": str(a)[:300], "pre_converted": str(b)[:300]}
+    return True, {}
+
+# ------------------------------------------------------------------ C20
+def gen_c20(rng, tier):
+    kind = rng.choice(["relabel", "relabel", "permute", "permute", "shift", "scale"])
+    if kind == "relabel":
+        z = rng.random()
+        if z < 0.3:
+            base = gen.gen_cf_case(rng, max_ops=7, warm=True, label="int")
+        elif z < 0.55:
+            import props as P
+            base = P.g_c13(rng, tier); base["label"] = "int"
+        else:
+            base = gen.gen_ctx_case(rng, max_ops=6, warm=True, label="int")
+        if rng.random() < 0.5 and 0 not in base["arms"] and not any(o[0] == "add" and o[1] == 0 for o in base["ops"]):
+            base = remap_arm(base, rng.choice(base["arms"]), 0)     # the falsy label 0
+        return {"kind": kind, "base": base, "style2": rng.choice(["str", "float", "negint"])}
+    if kind == "permute":
+        if rng.random() < 0.4:
+            base = gen.gen_cf_case(rng, max_ops=6, styles=["dyadic", "smallint", "binary", "nonneg_dyadic"], warm=False)
+        else:
+            base = gen.gen_ctx_case(rng, nps=["none", "radius", "lsh"], max_ops=5, reward_styles=["dyadic", "smallint", "binary"])
+        return {"kind": kind, "base": base, "seed2": rng.randint(0, 10**9)}
+    if kind == "shift":
+        base = gen.gen_cf_case(rng, kinds=["greedy", "ucb", "softmax"], max_ops=5, styles=["dyadic", "smallint"], arm_changes=False,
+                               queries=False, foreign_decisions=False)
+        if base["lp"][0] == "greedy":
+            base["lp"] = ("greedy", 0.0)
+        return {"kind": kind, "base": base, "c": gen.dyadic(rng, -16, 16)}
+    base = gen.gen_ctx_case(rng, nps=["none"], lps=["lingreedy"], max_ops=4, reward_styles=["dyadic", "smallint"], arm_changes=False)
+    lp = list(base["lp"]); lp[1] = 0.0; lp[3] = False; base["lp"] = tuple(lp)
+    return {"kind": kind, "base": base, "c": rng.choice([2.0, 0.5, -3.0, 0.25, 8.0])}
+
+def remap_arm(case, old, new):
+    """rename arm id `old` to `new` everywhere in a case"""
+    f = lambda a: new if a == old else a
+    c = dict(case)
+    c["arms"] = [f(a) for a in case["arms"]]
+    ops = []
+    for o in case["ops"]:
+        if o[0] in ("fit", "pfit"):
+            o = (o[0], [f(d) for d in o[1]], o[2], o[3])
+        elif o[0] == "add":
+            o = ("add", f(o[1]), o[2])
+        elif o[0] == "rem":
+            o = ("rem", f(o[1]))
+        elif o[0] == "warm":
+            o = ("warm", [f(a) for a in o[1]]) + tuple(o[2:])
+        ops.append(o)
+    c["ops"] = ops
+    if c["lp"][0] == "thompson" and c["lp"][1] is not None and c["lp"][1][0] == "thr":
+        b = c["lp"][1]; c["lp"] = ("thompson", ("thr", [(f(a), v) for a, v in b[1]], b[2]))
+    return c
+
+def all_observed(case):
+    arms = set(case["arms"])
+    seen = set()
+    for o in case["ops"]:
+        if o[0] == "fit":
+            seen = set(o[1])
+        elif o[0] == "pfit":
+            seen |= set(o[1])
+    return arms <= seen
+
+def run_c20(t):
+    base = t["base"]; kind = t["kind"]
+    mode = rel_mode(base)
+    if kind == "relabel":
+        c2 = dict(base); c2["label"] = t["style2"]
+        _, _, _, o1 = drive(base); _, _, _, o2 = drive(c2)
+        for i, (a, b) in enumerate(zip(o1, o2)):
+            if not outs_equal(a, b, mode, rtol=1e-12):
+                return False, {"why": "call %d (%s) differs after renaming the arms %s -> %s" % (i, base["ops"][i][0], base["label"], t["style2"]),
+                               "original": str(a)[:300], "renamed": str(b)[:300]}
+        return True, {}
+    if kind == "permute":
+        rng = random.Random(t["seed2"])
+        ops2 = []
+        for o in base["ops"]:
+            if o[0] in ("fit", "pfit") and len(o[1]) > 1:
+                idx = list(range(len(o[1]))); rng.shuffle(idx)
+                o = (o[0], [o[1][i] for i in idx], [o[2][i] for i in idx], None if o[3] is None else [o[3][i] for i in idx])
+            ops2.append(o)
+        c2 = dict(base); c2["ops"] = ops2
+        _, _, _, o1 = drive(base); _, _, _, o2 = drive(c2)
+        for i, (a, b) in enumerate(zip(o1, o2)):
+            if base["ops"][i][0] == "pexp" and not outs_equal(a, b, "tol", rtol=1e-7, atol=1e-9):
+                return False, {"why": "expectations of call %d differ after permuting the rows of the training batches" % i,
+                               "original": str(a)[:300], "permuted": str(b)[:300]}
+        return True, {}
+    if kind == "shift":
+        if not all_observed(base):
+            return True, {"skipped": "not every arm observed"}
+        c = t["c"]
+        c2 = dict(base); c2["ops"] = [(o[0], o[1], [r + c for r in o[2]], o[3]) if o[0] in ("fit", "pfit") else o for o in base["ops"]]
+        m1, l1, i1, _ = drive(base); m2, l2, i2, _ = drive(c2)
+        if not m1._is_initial_fit:
+            return True, {"skipped": "untrained"}
+        e1 = {i1(a): float(v) for a, v in m1._imp.arm_to_expectation.items()}
+        e2 = {i2(a): float(v) for a, v in m2._imp.arm_to_expectation.items()}
+        # arms observed since the last fit only
+        last = None
+        for o in base["ops"]:
+            if o[0] == "fit": last = set(o[1])
+            elif o[0] == "pfit" and last is not None: last |= set(o[1])
+            elif o[0] == "pfit": last = set(o[1])
+        if last is None or not set(base["arms"]) <= last:
+            return True, {"skipped": "not every arm observed since the last fit"}
+        for a in e1:
+            want = e1[a] + c if base["lp"][0] in ("greedy", "ucb") else e1[a]
+            if abs(e2[a] - want) > 1e-9 * max(1.0, abs(want)):
+                return False, {"why": "%s expectation of arm %r after adding %r to every reward: %r, expected %r" % (base["lp"][0], a, c, e2[a], want)}
+        return True, {}
+    if kind == "scale":
+        c = t["c"]
+        c2 = dict(base); c2["ops"] = [(o[0], o[1], [r * c for r in o[2]], o[3]) if o[0] in ("fit", "pfit") else o for o in base["ops"]]
+        _, _, _, o1 = drive(base); _, _, _, o2 = drive(c2)
+        for i, (a, b) in enumerate(zip(o1, o2)):
+            if base["ops"][i][0] == "pexp" and a[0] in ("exp", "exps") and b[0] == a[0]:
+                da = [a[1]] if a[0] == "exp" else a[1]; db = [b[1]] if b[0] == "exp" else b[1]
+                for x, y in zip(da, db):
+                    for (k1, v1), (k2, v2) in zip(x, y):
+                        f1, f2 = mwh.bits_f(v1), mwh.bits_f(v2)
+                        if abs(f2 - c * f1) > 1e-7 * max(1.0, abs(c * f1)):
+                            return False, {"why": "LinGreedy expectation of arm %r does not scale with the rewards (factor %r): %r vs %r" % (k1, c, f2, c * f1)}
+        return True, {}
+    return True, {}
